@@ -95,7 +95,7 @@ fn assoc_ctx<'tcx>(tcx: TyCtxt<'tcx>, did: DefId) -> J {
     while matches!(tcx.def_kind(cur), DefKind::Closure) {
         cur = tcx.parent(cur);
     }
-    o.put("name", J::s(tcx.item_name(cur).to_string()));
+    o.put("name", J::s(tcx.opt_item_name(cur).map(|n| n.to_string()).unwrap_or_else(|| "_".to_string())));
     if let Some(parent) = tcx.opt_parent(cur) {
         match tcx.def_kind(parent) {
             DefKind::Impl { of_trait } => {
@@ -212,6 +212,10 @@ impl<'tcx> Cx<'tcx> {
         let size = layout.size.bytes() as usize;
         let alloc = match tcx.global_alloc(alloc_id) {
             mir::interpret::GlobalAlloc::Memory(m) => m,
+            mir::interpret::GlobalAlloc::Static(did) => match tcx.eval_static_initializer(did) {
+                Ok(a) => a,
+                Err(_) => return None,
+            },
             _ => return None,
         };
         let inner = alloc.inner();
@@ -670,9 +674,13 @@ pub fn collect<'tcx>(tcx: TyCtxt<'tcx>) -> J {
 
     let mut bodies = Vec::new();
     let mut consts = Vec::new();
+    let mut driver_errors = Vec::new();
     for ldid in tcx.hir_body_owners() {
         let did = ldid.to_def_id();
         let kind = tcx.def_kind(did);
+        let before_b = bodies.len();
+        let before_c = consts.len();
+        let res = std::panic::catch_unwind(std::panic::AssertUnwindSafe(|| {
         match kind {
             DefKind::Fn | DefKind::AssocFn | DefKind::Closure => {
                 let body = tcx.optimized_mir(did);
@@ -729,7 +737,23 @@ pub fn collect<'tcx>(tcx: TyCtxt<'tcx>) -> J {
                 let parent = tcx.parent(did);
                 o.put("parent_key", J::s(defkey(tcx, parent)));
                 o.put("parent_kind", J::s(format!("{:?}", tcx.def_kind(parent)).split(|c| c == ' ' || c == '{').next().unwrap_or("").to_string()));
-                if tcx.generics_of(did).count() == 0 || tcx.generics_of(did).own_params.is_empty() {
+                if matches!(kind, DefKind::Static { .. }) {
+                    // statics must not go through const_eval_poly (it asserts on them)
+                    let mut v = J::obj();
+                    v.put("k", J::s("bytes"));
+                    if let Ok(alloc) = tcx.eval_static_initializer(did) {
+                        let inner = alloc.inner();
+                        if inner.provenance().ptrs().is_empty() && inner.len() <= (1 << 20) {
+                            let bytes = inner.inspect_with_uninit_and_ptr_outside_interpreter(0..inner.len());
+                            let mut hx = String::with_capacity(bytes.len() * 2);
+                            for b in bytes {
+                                hx.push_str(&format!("{:02x}", b));
+                            }
+                            v.put("hex", J::s(hx));
+                        }
+                    }
+                    o.put("val", v);
+                } else if tcx.generics_of(did).count() == 0 {
                     match tcx.const_eval_poly(did) {
                         Ok(v) => o.put("val", cx.const_value(v, ty)),
                         Err(_) => o.put("val", J::Null),
@@ -741,7 +765,16 @@ pub fn collect<'tcx>(tcx: TyCtxt<'tcx>) -> J {
             }
             _ => {}
         }
+        }));
+        if res.is_err() {
+            // an internal compiler error while extracting one item must not take the whole run down:
+            // the item is recorded as unavailable and only the rules that need it fail closed
+            bodies.truncate(before_b);
+            consts.truncate(before_c);
+            driver_errors.push(J::s(defkey(tcx, did)));
+        }
     }
+    root.put("driver_errors", J::Arr(driver_errors));
     root.put("bodies", J::Arr(bodies));
     root.put("consts", J::Arr(consts));
 
